@@ -13,6 +13,7 @@ pr :: (v: i64) { printf("%ld ", v); }
 '''
 
 FILES = ["main", "fa", "fb"]
+ALIAS = ["fm", "fa", "fb"]
 
 
 class Base:
@@ -52,7 +53,7 @@ BASES = [
         ("use", "use :: () -> @Ty { @gen(@Ty, 41) + @gen(@Ty, 0) }"),
     ], "io.pr(@use());", "43 "),
     Base("enum-array-const", [
-        ("N", "N :: 3;"),
+        ("N", "N : usize : 3;"),
         ("E", "E :: enum { A: [@N]u8, B };"),
         ("cnt", "cnt :: () -> usize { arr : [@N]i32; arr.len }"),
         ("pick", "pick :: (e: @E) -> i64 { switch v in e { .A => i64.(v[2]), .B => -1 } }"),
@@ -67,11 +68,11 @@ BASES = [
 
 BASES5 = [
     Base("five-chain", [
-        ("A", "A :: 2;"),
+        ("A", "A : usize : 2;"),
         ("T", "T :: i64;"),
         ("S", "S :: struct { v: @T, w: [@A]@T };"),
         ("mk", "mk :: () -> @S { @S.{ v = @K, w = @T.[1, 2] } }"),
-        ("K", "K :: comptime { @A * 21 };"),
+        ("K", "K :: comptime { i64.(@A) * 21 };"),
     ], "s := @mk(); io.pr(s.v + s.w[1]);", "44 "),
 ]
 
@@ -90,7 +91,7 @@ def render(base, perm, assign):
             if there == here:
                 return name
             needs[here].add(there)
-            return f"{FILES[there]}.{name}"
+            return f"{ALIAS[there]}.{name}"
         return REF_RE.sub(rep, text)
 
     for name in perm:
@@ -104,7 +105,7 @@ def render(base, perm, assign):
             continue
         head = ['io :: #import("io.capy");'] if (f == 0 or any("io." in t for t in texts[f])) else []
         for other in sorted(needs[f]):
-            head.append(f'{FILES[other]} :: #import("{FILES[other]}.capy");')
+            head.append(f'{ALIAS[other]} :: #import("{FILES[other]}.capy");')
         body = texts[f] + ([main_src] if f == 0 else [])
         files[FILES[f] + ".capy"] = "\n".join(head + body) + "\n"
     files["io.capy"] = IO
